@@ -407,7 +407,9 @@ def _gen_scripted(rng: Rng):
         f = rng.choice([None, None, rng.randint(0, 40)])
         ops.append(_gen_op(rng, comps, fail=f))
     ops.append(_gen_op(rng, comps, op=rng.choice(["C", "C", "C", "S", "N"]), fail="all"))
-    return dict(kind="scripted", shape=shape, global_rng=rng.random() < 0.3, data=data, ops=ops)
+    # the history CONTINUES after the last operation — after the fault-free run and after every failed run
+    tail = [_gen_op(rng, comps, op=o, fail=None) for o in rng.choice([["S"], ["S"], ["N", "S"], ["C"], ["S", "C"], []])]
+    return dict(kind="scripted", shape=shape, global_rng=rng.random() < 0.3, data=data, ops=ops, tail=tail)
 
 
 def _gen_real(rng: Rng, kind):
@@ -567,11 +569,23 @@ def _check_sparse(viol, entry, source, sparse):
                 viol.append(dict(clause="sparsify_subset", entry=entry, msg=f"component {ci} curve {i}: grid differs from the source grid"))
 
 
+def _other_attrs(sim):
+    """Every attribute of the simulator except the three datasets (and the instrumentation): identity for
+    objects, value for plain scalars.  A failed call must leave them as they were."""
+    out = {}
+    for k, v in vars(sim).items():
+        if k in ("data", "noisy_data", "sparse_data", "random_state", "_check_data", "_check_dimension", "add_noise", "sparsify"):
+            continue
+        out[k] = v if isinstance(v, (int, float, str, bool, type(None))) else ("obj", id(v))
+    return out
+
+
 class _Obs:
     """Observe one simulator around one run and evaluate the property's predicates."""
 
     def __init__(self, sim):
         self.sim = sim
+        self.attrs0 = _other_attrs(sim)
         self.d0 = sim.data
         self.d0_text = _data_text(sim.data)
         self.n0 = getattr(sim, "noisy_data", None)
@@ -590,6 +604,11 @@ class _Obs:
         elif _data_text(sim.data) != self.d0_text:
             viol.append(dict(clause="data_restored", entry=entry, causes=causes + ["values"],
                              msg=f"after {how}: the clean data were modified in place"))
+        attrs1 = _other_attrs(sim)
+        if attrs1 != self.attrs0:
+            ch = sorted(k for k in set(attrs1) | set(self.attrs0) if attrs1.get(k, "<absent>") != self.attrs0.get(k, "<absent>"))
+            viol.append(dict(clause="state_restored", entry=entry, causes=causes + ["hidden_attribute"],
+                             msg=f"after {how}: the simulator attribute(s) {ch} are not what they were before the call (hidden state a later call may read)"))
         if self.n0 is not None and op == "S" and (getattr(sim, "noisy_data", None) is not self.n0 or _data_text(self.n0) != self.n0_text):
             viol.append(dict(clause="source_unchanged", entry=entry, causes=causes, msg=f"after {how}: sparsify changed noisy_data"))
         if op in ("S", "C") and self.d0 is not None:
@@ -630,11 +649,11 @@ def _run_scripted_once(case, fail_last):
     sim.data = _mk_data(case["data"])
     out, viol = [], []
     n_ops = len(case["ops"])
-    for oi, op in enumerate(case["ops"]):
+    for oi, op in enumerate(case["ops"] + list(case.get("tail", []))):
         fail = op["fail"]
         if oi == n_ops - 1:
             fail = fail_last
-        elif fail == "all":
+        elif fail == "all" or oi >= n_ops:
             fail = None
         ticker = Ticker(fail)
         src = ScriptSource()
@@ -754,6 +773,18 @@ def _run_real_once(case, fail, line_k=None, count_only=False):
     r = math.sqrt(case["r2"])
     Zs = [z for (lab, z) in rec if lab == "rnorm"] or None
     obs.after(viol, case["op"], st, label, r, Zs, exact=False)
+    # the history continues: a plain sparsify after the (possibly failed) call must sparsify the CLEAN data
+    obs2 = _Obs(sim)
+    exc2 = None
+    try:
+        sim.sparsify(percentage=0.7, epsilon=0.1)
+    except Exception as e2:  # noqa: BLE001
+        exc2 = e2
+    v0 = len(viol)
+    obs2.after(viol, "S", _status(exc2), "sparsify (continued history)", 0.0, None, exact=False)
+    for v in viol[v0:]:
+        v["msg"] = f"history continued after {st} at {label}: " + v["msg"]
+        v.setdefault("causes", []).append("after_failed_call" if st != "ok" else "after_success")
     for v in viol:
         v["fail"] = fail if line_k is None else f"line:{line_k}"
     return dict(status=st, ticks=n, label=label, msg=(str(exc)[:120] if exc is not None else "")), viol
@@ -763,15 +794,25 @@ def run_impl(case):
     kind = case["kind"]
     if kind == "scripted":
         base, viol = _run_scripted_once(case, None)
-        T = base[-1]["ticks"]
+        T = base[len(case["ops"]) - 1]["ticks"]
         faults = []
         for k in range(T):
             recs, v = _run_scripted_once(case, k)
-            faults.append({key: recs[-1][key] for key in ("status", "ticks", "label", "state", "msg")})
-            viol += [x for x in v if x.get("op_index") == len(case["ops"]) - 1]
+            n_ops = len(case["ops"])
+            fr = {key: recs[n_ops - 1][key] for key in ("status", "ticks", "label", "state", "msg")}
+            fr["tail"] = [{key: r[key] for key in ("status", "ticks", "label", "state", "msg")} for r in recs[n_ops:]]
+            faults.append(fr)
+            for x in v:
+                if x.get("op_index", 0) >= n_ops:
+                    x["msg"] = f"history continued after the failed call (fault point {k}), step {x['op_index'] - n_ops + 1}: " + x["msg"]
+                    x.setdefault("causes", []).append("after_failed_call")
+            viol += [x for x in v if x.get("op_index", 0) >= n_ops - 1]
+        n_ops = len(case["ops"])
+        T = base[n_ops - 1]["ticks"]
         for rcd in base:
             rcd["trace"] = ",".join(rcd["trace"])
-        return dict(runs=base, faults=faults, viol=_dedupe(viol))
+        return dict(runs=base[:n_ops], base_tail=[{key: r[key] for key in ("status", "ticks", "label", "state", "msg")} for r in base[n_ops:]],
+                    faults=faults, viol=_dedupe(viol))
     if kind == "real":
         base, viol = _run_real_once(case, None)
         T = base["ticks"]
@@ -844,7 +885,8 @@ def model_lines(case, impl):
     if case["kind"] != "scripted":
         return []
     n = len(case["ops"])
-    return [f"c20 {case.get('repl', 0)} {_data_tok(case['data'])} " + " ".join(_op_tok(op, i == n - 1) for i, op in enumerate(case["ops"]))]
+    toks = [_op_tok(op, i == n - 1) for i, op in enumerate(case["ops"])] + [_op_tok(op, False) for op in case.get("tail", [])]
+    return [f"c20 {case.get('repl', 0)} {_data_tok(case['data'])} " + " ".join(toks)]
 
 
 def parse_model(case, outs):
@@ -857,13 +899,23 @@ def parse_model(case, outs):
         st, ticks, trace, state = s.split("!")
         runs.append(dict(status=st, ticks=int(ticks), trace=trace, state=state))
     parts = segs[-1].split("%")
-    st, ticks, trace, state = parts[0].split("!")
+
+    def tail_of(chunks):
+        out = []
+        for c in chunks:
+            st, ticks, label, state = c.split("!")
+            out.append(dict(status=st, ticks=int(ticks), label=label, state=state))
+        return out
+
+    first = parts[0].split("^")
+    st, ticks, trace, state = first[0].split("!")
     runs.append(dict(status=st, ticks=int(ticks), trace=trace, state=state))
     faults = []
     for p in parts[1:]:
-        st, ticks, label, state = p.split("!")
-        faults.append(dict(status=st, ticks=int(ticks), label=label, state=state))
-    return dict(runs=runs, faults=faults)
+        chunks = p.split("^")
+        st, ticks, label, state = chunks[0].split("!")
+        faults.append(dict(status=st, ticks=int(ticks), label=label, state=state, tail=tail_of(chunks[1:])))
+    return dict(runs=runs, faults=faults, base_tail=tail_of(first[1:]))
 
 
 def _cls(status):
@@ -884,6 +936,12 @@ def compare(case, impl, model):
                 ds.append(f"op {i} ({case['ops'][i]['op']}, fail={case['ops'][i]['fail']}): {key} impl {str(a[key])[:200]} vs model {str(b[key])[:200]}")
         if _cls(a["status"]) != _cls(b["status"]):
             ds.append(f"op {i}: status impl {a['status']} ({a.get('msg')}) vs model {b['status']}")
+    for j, (a, b) in enumerate(zip(impl.get("base_tail", []), model.get("base_tail", []))):
+        for key in ("ticks", "state"):
+            if a[key] != b[key]:
+                ds.append(f"history continued after the fault-free run, step {j + 1}: {key} impl {str(a[key])[:200]} vs model {str(b[key])[:200]}")
+        if _cls(a["status"]) != _cls(b["status"]):
+            ds.append(f"history continued after the fault-free run, step {j + 1}: status impl {a['status']} ({a.get('msg')}) vs model {b['status']}")
     if len(impl["faults"]) != len(model["faults"]):
         ds.append(f"{len(impl['faults'])} fault points vs model {len(model['faults'])}")
     else:
@@ -893,6 +951,9 @@ def compare(case, impl, model):
                     ds.append(f"last op, fault point {k}: {key} impl {str(a[key])[:200]} vs model {str(b[key])[:200]}")
             if _cls(a["status"]) != _cls(b["status"]):
                 ds.append(f"last op, fault point {k}: status impl {a['status']} ({a.get('msg')}) vs model {b['status']}")
+            for j, (ta, tb) in enumerate(zip(a.get("tail", []), b.get("tail", []))):
+                if ta["state"] != tb["state"] or _cls(ta["status"]) != _cls(tb["status"]):
+                    ds.append(f"history continued after the failure at fault point {k}, step {j + 1}: impl {ta['status']} {str(ta['state'])[:160]} vs model {tb['status']} {str(tb['state'])[:160]}")
             if len(ds) > 4:
                 break
     return ds[:6]
